@@ -1,5 +1,5 @@
 # Table of checks (exec'd by vcheck).  check(id, source, flavour, lib, workers=(quick,thorough), wall=(quick,thorough) seconds)
-check("C08", "harness/c08_rbtree.cxx", lib=False, opt="-O1", workers=(8, 16), wall=(20, 300),
+check("C08", "harness/c08_rbtree.cxx", lib=False, opt="-O1", workers=(8, 16), wall=(40, 1200),
       title="ordered-set utility stays a valid balanced search tree")
 check("C01", "harness/c01_types.cxx", workers=(8, 16), wall=(20, 600),
       title="types are unified")
